@@ -1,6 +1,6 @@
 #!/bin/bash
 # Run once after a fresh restore, offline: builds the simulation binary (warms the Go build cache).
 set -euo pipefail
-cd /verif
+cd "$(dirname "$(readlink -f "$0")")"
 ./build.sh
 echo "setup ok"
